@@ -1,7 +1,7 @@
 """Which contract libraries serve which property."""
 import importlib
 
-LIBS = ["bitset", "scalars", "codec", "cursor", "gen_access", "groups", "arrays"]
+LIBS = ["bitset", "scalars", "codec", "cursor", "gen_access", "groups", "arrays", "gen_more"]
 
 
 def contracts_for(prop, tier):
